@@ -101,6 +101,31 @@ Section Model.
     let '(g, rest) := span (fun c => (c =? 126) || (c =? 94) || (c =? 32)) s in
     match rest with [] => true | [c] => c =? 10 | _ => false end.
 
+  (* _repeat_re = ^\[Previous line repeated (?P<count>\d+) more times?\]$ : the digits *)
+  Definition M_prevline : str :=
+    [91;80;114;101;118;105;111;117;115;32;108;105;110;101;32;114;101;112;101;97;116;101;100;32].
+  Definition M_moretime : str := [32;109;111;114;101;32;116;105;109;101].
+  Definition end_ok (t : str) : bool := match t with [] => true | [c] => c =? 10 | _ => false end.
+  Definition close_ok (t : str) : bool := match t with c :: r => (c =? 93) && end_ok r | [] => false end.
+  Definition repeat_re (s : str) : option str :=
+    match drop_prefix M_prevline s with
+    | None => None
+    | Some t =>
+        let '(n, t2) := span (is_dg C) t in
+        match n with
+        | [] => None
+        | _ => match drop_prefix M_moretime t2 with
+               | None => None
+               | Some t3 =>
+                   let ok := match t3 with
+                             | c :: r => if c =? 115 then close_ok r else close_ok t3      (* s? *)
+                             | [] => false
+                             end in
+                   if ok then Some n else None
+               end
+        end
+    end.
+
   (* ---- ParsedException.from_string ---------------------------------------------- *)
   Definition m_ignored (l : str) : bool := startswith M_exception l && endswith M_ignored l.
 
@@ -121,32 +146,43 @@ Section Model.
     | Raise e => Raise e
     end.
 
-  (* the [while True] loop; [ls] = tb_lines[line_no:].  Reading tb_lines[line_no]
-     or tb_lines[line_no + 1] (the marker test) past the end is an escaping
-     IndexError; the look-ahead for the source line is guarded in the code. *)
-  Fixpoint scan (fre : str -> option (str * str * option str)) (ls : list str)
+  (* the [while True] loop; [ls] = tb_lines[line_no:], [prev] = frames[-1] if any.  Reading
+     tb_lines[line_no] or tb_lines[line_no + 1] (the marker test) past the end is an escaping
+     IndexError; the look-ahead for the source line is guarded in the code.  A folding line
+     of the traceback module stands for int(count) more copies of the previous entry. *)
+  Fixpoint scan (fre : str -> option (str * str * option str)) (prev : option frame) (ls : list str)
     : res (list frame * list str) :=
     match ls with
     | [] => Raise IndexError
     | l :: rest =>
+        match match prev with Some pf => match repeat_re (strip C l) with Some d => Some (pf, d) | None => None end
+                            | None => None end with
+        | Some (pf, d) =>
+            match scan fre prev rest with
+            | Ok (fs, r) => Ok (repeat pf (N.to_nat (int_of C d)) ++ fs, r)
+            | Raise e => Raise e
+            end
+        | None =>
         match fre (strip C l) with
         | None => Ok ([], ls)
         | Some (p, n, fn) =>
             match rest with
             | [] => Raise IndexError          (* next_line = '', then tb_lines[line_no + 1] *)
             | nl :: rest2 =>
-                if is_some (fre (strip C nl)) || negb (starts_space nl) then
+                if is_some (fre (strip C nl)) || is_some (repeat_re (strip C nl)) || negb (starts_space nl) then
                   (* no source line; marker test on the same next line *)
-                  if underline_re nl then cons_frame (mkFrame p n fn []) (scan fre rest2)
-                  else cons_frame (mkFrame p n fn []) (scan fre rest)
+                  if underline_re nl then cons_frame (mkFrame p n fn []) (scan fre (Some (mkFrame p n fn [])) rest2)
+                  else cons_frame (mkFrame p n fn []) (scan fre (Some (mkFrame p n fn [])) rest)
                 else
                   match rest2 with
                   | [] => Raise IndexError
                   | u :: rest3 =>
-                      if underline_re u then cons_frame (mkFrame p n fn (strip C nl)) (scan fre rest3)
-                      else cons_frame (mkFrame p n fn (strip C nl)) (scan fre rest2)
+                      let f := mkFrame p n fn (strip C nl) in
+                      if underline_re u then cons_frame f (scan fre (Some f) rest3)
+                      else cons_frame f (scan fre (Some f) rest2)
                   end
             end
+        end
         end
     end.
 
@@ -156,7 +192,7 @@ Section Model.
   Definition from_string (s : str) : res tb :=
     let ls := drop_ignored (splitlines C (lstrip C s)) in
     let go fre body :=
-      match scan fre body with
+      match scan fre None body with
       | Raise e => Raise e
       | Ok (fs, rest) =>
           let '(ty, _, msg) := partition M_colon (join M_nl rest) in
@@ -175,29 +211,36 @@ Section Model.
   Definition M_file2 : str := 32 :: 32 :: M_file.
   Definition M_ind4 : str := [32;32;32;32].
 
-  Fixpoint frames_to_lines (fs : list frame) : res (list str) :=
+  (* key = (filepath, lineno, funcname) *)
+  Definition fr_same (a b : frame) : bool :=
+    str_eqb (f_path a) (f_path b) && str_eqb (f_lineno a) (f_lineno b) &&
+    str_eqb (func_of a) (func_of b).
+
+  Definition ts_prev1 : str :=
+    [32;32;91;80;114;101;118;105;111;117;115;32;108;105;110;101;32;114;101;112;101;97;116;101;100;32].
+  Definition ts_repeated (count : N) : list str :=       (* _repeated_str(count).splitlines() *)
+    if count <=? 3 then []
+    else [ts_prev1 ++ dec (count - 3) ++ M_moretime ++ (if 1 <? count - 3 then [115] else []) ++ [93]].
+
+  Definition ts_entry (f : frame) : list str :=
+    (M_file2 ++ f_path f ++ M_qline ++ f_lineno f ++ M_in ++ func_of f)
+      :: (if is_nil (f_src f) then [] else [M_ind4 ++ f_src f]).
+
+  (* the loop of to_string: last_key, count *)
+  Fixpoint ts_fold (last : option frame) (count : N) (fs : list frame) : list str :=
     match fs with
-    | [] => Ok []
+    | [] => ts_repeated count
     | f :: r =>
-        match f_func f with
-        | None => Raise KeyError                        (* frame['funcname'] *)
-        | Some fn =>
-            match frames_to_lines r with
-            | Raise e => Raise e
-            | Ok ls =>
-                Ok ((M_file2 ++ f_path f ++ M_qline ++ f_lineno f ++ M_in ++ fn)
-                      :: (if is_nil (f_src f) then ls else (M_ind4 ++ f_src f) :: ls))
-            end
-        end
+        if match last with Some l => fr_same l f | None => false end
+        then (if count + 1 <=? 3 then ts_entry f else []) ++ ts_fold last (count + 1) r
+        else ts_repeated count ++ ts_entry f ++ ts_fold (Some f) 1 r
     end.
 
   Definition to_string (T : tb) : res str :=
-    match frames_to_lines (t_frames T) with
-    | Raise e => Raise e
-    | Ok ls =>
-        let last := if is_nil (t_msg T) then t_type T else t_type T ++ M_colon ++ t_msg T in
-        Ok (join M_nl (M_header :: ls ++ [last]))
-    end.
+    if forallb (fun f => is_some (f_func f)) (t_frames T) then
+      let last := if is_nil (t_msg T) then t_type T else t_type T ++ M_colon ++ t_msg T in
+      Ok (join M_nl (M_header :: ts_fold None 0 (t_frames T) ++ [last]))
+    else Raise KeyError.                              (* frame['funcname'] *)
 
   (* ---- ExceptionInfo / TracebackInfo / Callpoint ------------------------------------ *)
   (* a Callpoint as built by Callpoint.from_tb: module_path, lineno, func_name and
